@@ -69,7 +69,7 @@ func expectedSeen(rd rx.Round) (seen []string, exact bool) {
 		}
 		out = append(out, exp[i:]...)
 		return out, true
-	case "until-err":
+	case "until-err", "until-errw":
 		ne := nonEED(exp)
 		if rd.J >= len(ne) {
 			return ne, true
@@ -126,7 +126,7 @@ func check(c Case, obs []rx.RoundObs, o rx.Obs) bool {
 				h.Violate("C03|nil-callback-return|"+hist, fmt.Sprintf("%s: nil callback must consume the response and report io.EOF, returned %q", ctxt, ro.Ret), c)
 				return false
 			}
-		case "until-err":
+		case "until-err", "until-errw":
 			ne := nonEED(rx.Expected(corpus[rd.Resp]))
 			if rd.J < len(ne) && ro.Ret != "callback error" {
 				h.Violate("C03|callback-error-lost|"+hist, fmt.Sprintf("%s: callback failed at package %d, the call returned %q", ctxt, rd.J, ro.Ret), c)
@@ -223,7 +223,7 @@ func main() {
 			all = append(all, rx.Round{Resp: s, Pack: pack, Beh: "next"})
 			all = append(all, rx.Round{Resp: s, Pack: pack, Beh: "nil-callback"})
 			for j := 0; j < ne; j++ {
-				for _, b := range []string{"until-true", "until-eof", "until-err"} {
+				for _, b := range []string{"until-true", "until-eof", "until-err", "until-errw"} {
 					if pack != 0 && pack != 2 && j != 0 && j != ne-1 {
 						continue // every j for two packetisations, first/last j for the others
 					}
